@@ -161,6 +161,8 @@ func writeListOrArray(e *Encoder, d *decodeState, ifWriteTag bool, tagName strin
 	start := d.readIndex()
 
 	switch d.opcode {
+	case scanError:
+		return TagList, d.error(d.scan.errContext)
 	case scanBeginLiteral:
 		if d.scanWhile(scanContinue); d.opcode == scanError {
 			return TagList, d.error(d.scan.errContext)
